@@ -34,6 +34,8 @@ def _cm_cfgs():
     out += [{"depth": 1, "fail_at": 1, "exc": "base"}, {"depth": 2, "fail_at": 2, "exc": "base"}, {"depth": 3, "fail_at": 2, "exc": "base"}]
     # a configuration object on which nothing has been set yet: the value to restore is the default taken from the environment
     out += [{"depth": 1, "fail_at": None, "fresh": "1"}, {"depth": 2, "fail_at": 2, "fresh": "1"}, {"depth": 1, "fail_at": 1, "fresh": "0"}]
+    # the body itself assigns the option (plain setter) before it ends: the exit still restores the value seen at entry
+    out += [{"depth": 1, "fail_at": None, "body_sets": True}, {"depth": 2, "fail_at": 2, "body_sets": True}, {"depth": 2, "fail_at": None, "body_sets": True}]
     return out
 
 
@@ -73,7 +75,10 @@ class _enable:
         vals = [b.bool(f"v{i}") for i in range(1, b.cfg.depth + 1)]
         fresh = getattr(b.cfg, "fresh", None)
         init = b.bool("init") if fresh is None else (fresh == "1")
-        return dict(self=b.module_attr("physt.config", "config"), cls=b.module_attr("physt.config", "_Config"), init=init, values=vals)
+        kw = dict(self=b.module_attr("physt.config", "config"), cls=b.module_attr("physt.config", "_Config"), init=init, values=vals)
+        if getattr(b.cfg, "body_sets", False):
+            kw["flips"] = [b.bool(f"s{i}") for i in range(1, b.cfg.depth + 1)]
+        return kw
 
     def invoke(I, fn, a, cfg):
         """nested `with config.enable_free_arithmetics(v_i):` blocks; the body at depth fail_at raises."""
@@ -97,6 +102,8 @@ class _enable:
                             level(i + 1)
                         finally:
                             obs["after_each"][i + 1] = _get(I, a.self)
+                    if getattr(cfg, "body_sets", False):
+                        I.setattr(a.self, "free_arithmetics", a.flips[i])
                     if cfg.fail_at == i + 1:
                         raise Raised(_boom(cfg)("body failed"))
                 I.run_contextmanager(cm, body)
@@ -124,6 +131,8 @@ class _enable:
                         level(i + 1)
                     finally:
                         obs["after_each"][i + 1] = a.self.free_arithmetics
+                if getattr(cfg, "body_sets", False):
+                    a.self.free_arithmetics = a.flips[i]
                 if cfg.fail_at == i + 1:
                     raise _boom(cfg)("body failed")
         try:
